@@ -438,6 +438,17 @@ fn check_script(item: &str, _ctx: &Ctx) -> Outcome {
     Outcome::pass(true, hash_str(item)).with_case(item.to_string())
 }
 
+/// Entry point of the libFuzzer target: the input bytes are the tape of one session.
+/// Some(report) = the validity predicate failed.
+pub fn fuzz_session(data: &[u8]) -> Option<String> {
+    let ctx = Ctx { render: false, strict: true, thorough: true };
+    let o = check_session(&mut Tape::new(data), &ctx);
+    match o.v {
+        crate::runner::V::Fail { clause, detail, .. } => Some(format!("{}: {}\n{}", clause, detail, o.case.unwrap_or_default())),
+        _ => None,
+    }
+}
+
 pub fn property() -> Property {
     Property {
         id: "C03",
